@@ -189,7 +189,7 @@ theorem parseClass_rest_suffix (fl : FnFlags) :
 /-- one step of tokenisation, with `toks` on the remainders -/
 theorem toks_cons (fl : FnFlags) (pc : Nat) (p1 : List Nat) :
     toks fl (pc :: p1) =
-      if pc = cStar then .star :: toks fl p1
+      if pc = cStar then .star (p1.head? == some cDot) :: toks fl p1
       else if pc = cQuest then .any :: toks fl p1
       else if pc = cLB then
         (match parseClass fl (p1.length + 2)
@@ -265,11 +265,11 @@ theorem retry_sound (fl : FnFlags) (G : Prop) (f : Nat)
       (∀ c ∈ p, c ≠ 0) → (∀ c ∈ s.rest, c ≠ 0) →
       (∀ rp skip, retry = some (rp, skip) → (∀ c ∈ rp, c ≠ 0) ∧ (∀ c ∈ skip.rest, c ≠ 0)) →
       (Matches fl (toks fl p) s.rest → G) →
-      (∀ rp skip, retry = some (rp, skip) → Matches fl (.star :: toks fl rp) skip.rest → G) →
+      (∀ rp skip, retry = some (rp, skip) → Matches fl (.star (rp.head? == some cDot) :: toks fl rp) skip.rest → G) →
       wfn fl f p s retry = 0 → G)
     (s : SPos) (retry : Option (List Nat × SPos))
     (hr0 : ∀ rp skip, retry = some (rp, skip) → (∀ c ∈ rp, c ≠ 0) ∧ (∀ c ∈ skip.rest, c ≠ 0))
-    (I2 : ∀ rp skip, retry = some (rp, skip) → Matches fl (.star :: toks fl rp) skip.rest → G)
+    (I2 : ∀ rp skip, retry = some (rp, skip) → Matches fl (.star (rp.head? == some cDot) :: toks fl rp) skip.rest → G)
     (h : (match retryStep fl s retry with
           | .inl r => r
           | .inr (p', s', retry') => wfn fl f p' s' retry') = 0) : G := by
@@ -293,7 +293,7 @@ theorem retry_sound (fl : FnFlags) (G : Prop) (f : Nat)
             subst hrp
             apply I2 [] skip rfl
             rw [hskip, toks_nil]
-            exact .star0 _ _ .nil
+            exact .star0 _ _ _ .nil
           · simp at h
         · split at heq
           · cases heq; simp at h
@@ -323,17 +323,17 @@ theorem retry_sound (fl : FnFlags) (G : Prop) (f : Nat)
                 obtain ⟨rfl, rfl⟩ := he
                 exact ⟨hrp0, fun c hc => hsk0 c (by simp [hc])⟩
               · intro hm
-                exact I2 rp ⟨prev, x :: r⟩ rfl (.starS x _ r hok (.star0 _ _ hm))
+                exact I2 rp ⟨prev, x :: r⟩ rfl (.starS _ x _ r hok (.star0 _ _ _ hm))
               · intro rp' skip' he hm
                 simp only [Option.some.injEq, Prod.mk.injEq] at he
                 obtain ⟨rfl, rfl⟩ := he
-                exact I2 _ ⟨prev, x :: r⟩ rfl (.starS x _ r hok hm)
+                exact I2 _ ⟨prev, x :: r⟩ rfl (.starS _ x _ r hok hm)
 
 theorem wfn_sound (fl : FnFlags) (G : Prop) : ∀ (f : Nat) (p : List Nat) (s : SPos) (retry : Option (List Nat × SPos)),
       (∀ c ∈ p, c ≠ 0) → (∀ c ∈ s.rest, c ≠ 0) →
       (∀ rp skip, retry = some (rp, skip) → (∀ c ∈ rp, c ≠ 0) ∧ (∀ c ∈ skip.rest, c ≠ 0)) →
       (Matches fl (toks fl p) s.rest → G) →
-      (∀ rp skip, retry = some (rp, skip) → Matches fl (.star :: toks fl rp) skip.rest → G) →
+      (∀ rp skip, retry = some (rp, skip) → Matches fl (.star (rp.head? == some cDot) :: toks fl rp) skip.rest → G) →
       wfn fl f p s retry = 0 → G := by
   intro f
   induction f with
@@ -422,7 +422,7 @@ theorem wfn_sound (fl : FnFlags) (G : Prop) : ∀ (f : Nat) (p : List Nat) (s : 
             (fun rp skip he => by
               simp only [Option.some.injEq, Prod.mk.injEq] at he
               obtain ⟨rfl, rfl⟩ := he; exact ⟨hp1, hs0⟩)
-            (fun hm => I1 (.star0 _ _ hm))
+            (fun hm => I1 (.star0 _ _ _ hm))
             (fun rp skip he hm => by
               simp only [Option.some.injEq, Prod.mk.injEq] at he
               obtain ⟨rfl, rfl⟩ := he; exact I1 hm) h
